@@ -635,6 +635,13 @@ class SamplingMethod(DirectMethod):
         self.set_initial(stage, master, initial_guesses) # Redo this: ocp.t is correct only now
 
 
+    def reject_refined_control_constraints(self, stage):
+        # A constraint on the control grid is imposed at the N+1 control nodes here;
+        # only SplineMethod can impose it at intermediate points as well
+        for c, meta, args in stage._constraints["control"]:
+            if args["refine"]!=1:
+                raise Exception("refine=%s on a constraint with grid='control' is not supported by %s: the constraint would only hold at the control nodes. Use grid='integrator' (with M>1), grid='inf', or SplineMethod." % (str(args["refine"]), type(self).__name__))
+
     def add_constraints_before(self, stage, opti):
         for c, meta, args in stage._constraints["point"]:
             e = self.eval(stage, c)
